@@ -29,13 +29,9 @@ def copy_py_tree(src_repo, dst_repo):
 
 
 def run_rules(pid, repo):
-    from . import frontend, report
-    prog = frontend.Program(repo)
-    mod = importlib.import_module('vsa.rules.' + pid)
-    ctx = report.Ctx(pid, 'quick', prog, 0)
-    ctx.only = None
+    from . import frontend, report, engine
     try:
-        mod.run(ctx)
+        ctx = engine.decide(pid, repo, 'quick', 0, None)
     except frontend.AnalysisError as e:
         return {'error': str(e), 'keys': [], 'floor': []}
     keys = []
